@@ -43,6 +43,8 @@ type WorldCfg struct {
 	// StrictAbort: an engine abort of a statement in a history without any concurrent transaction is
 	// reported (no other transaction can be the reason).
 	KeyExtra func(w *World) string
+	// Custom handles driver-specific ops; handled=false falls through to the built-in op language.
+	Custom func(w *World, op string) (handled bool, v *core.Violation)
 	// Filter may reclassify a violation (e.g. mark it Ignore when it does not belong to the property).
 	Filter func(w *World, op string, v *core.Violation) *core.Violation
 }
@@ -128,6 +130,17 @@ func (w *World) apply(op string) *core.Violation {
 	if w.cfg.Before != nil {
 		if v := w.cfg.Before(w, op); v != nil {
 			return v
+		}
+	}
+	if w.cfg.Custom != nil {
+		if handled, v := w.cfg.Custom(w, op); handled {
+			if v != nil {
+				return v
+			}
+			if w.cfg.After != nil {
+				return w.cfg.After(w, op)
+			}
+			return nil
 		}
 	}
 	switch parts[0] {
@@ -385,6 +398,56 @@ func (w *World) PointIndex(table, col string, key any) (Rows, *core.Violation) {
 	if res.Aborted {
 		t.Abort()
 		return nil, w.viol("battery-aborted", "battery", fmt.Sprintf("index lookup %s.%s = %v was aborted although no other transaction is active", table, col, key))
+	}
+	if f := t.Commit(); f != nil {
+		return nil, w.viol("call-failed/"+f.Kind+"@"+f.Where, "battery", f.String())
+	}
+	return res.Rows, nil
+}
+
+func toValue(key any) types.Value {
+	switch x := key.(type) {
+	case int32:
+		return types.NewInteger(x)
+	case float32:
+		return types.NewFloat(x)
+	case string:
+		return types.NewVarchar(x)
+	}
+	panic("no value")
+}
+
+// IndexRange reads table through the index on col with a RangeScanWithIndex plan (plan API, so the index
+// is used whatever the optimizer would choose); lo/hi nil = open end. Rows come back in index order.
+func (w *World) IndexRange(table, col string, lo, hi any) (Rows, *core.Violation) {
+	var res StmtResult
+	t := w.db.Begin()
+	f := guard(func() {
+		cat := w.db.Cat()
+		tm := cat.GetTableByName(table)
+		sc := tm.Schema()
+		var lov, hiv *types.Value
+		if lo != nil {
+			v := toValue(lo)
+			lov = &v
+		}
+		if hi != nil {
+			v := toValue(hi)
+			hiv = &v
+		}
+		plan := plans.NewRangeScanWithIndexPlanNode(cat, sc, tm.OID(), int32(sc.GetColIndex(table+"."+col)), nil, lov, hiv)
+		res = t.ExecPlan(plan)
+	})
+	if f == nil {
+		f = res.Fail
+	}
+	what := fmt.Sprintf("index range scan %s.%s [%v,%v]", table, col, lo, hi)
+	if f != nil {
+		return nil, w.viol("call-failed/"+f.Kind+"@"+f.Where, "battery", what+" -> "+f.String())
+	}
+	if res.Aborted {
+		t.Abort()
+		return nil, w.viol("index-scan-aborted", "battery", what+" was aborted although no other transaction is active (the index points to a row that is not there)")
 	}
 	if f := t.Commit(); f != nil {
 		return nil, w.viol("call-failed/"+f.Kind+"@"+f.Where, "battery", f.String())
